@@ -5,3 +5,6 @@ import BalmProofs.Props.C03
 #print axioms Balm.Props.C04.plain_history_inv
 #print axioms Balm.Impl.mem_minTrapsIn
 #print axioms Balm.Impl.judgeLeaves_sound
+#print axioms Balm.Skip.attach_weak
+#print axioms Balm.Impl.source_valuations_cover
+#print axioms Balm.Impl.valuation_trap
